@@ -195,8 +195,12 @@ class World(BaseWorld):
                 # sources labelled beforehand with the public per-node function
                 pre = [i for i in range(n) if self.ref.nodes[f'n{i}'].type in
                        ('defense', 'exist', 'notExist') and rng.random() < 0.6]
+            comp = []
+            if rng.random() < 0.3:
+                # an attacker already holds some steps: labels depend on the graph only
+                comp = [i for i in range(n) if rng.random() < 0.3]
             return {'op': 'analyse', 'mat': rng.choice(['hand', 'hand', 'dict']),
-                    'perm': perm, 'eperm': eperm, 'pre_eval': pre}
+                    'perm': perm, 'eperm': eperm, 'pre_eval': pre, 'compromised': comp}
         nassets = sum(1 for o in self.desc['model_ops'] if o['op'] == 'add_asset')
         perm = list(range(nassets))
         if self.nmat:
@@ -222,6 +226,14 @@ class World(BaseWorld):
                 if n is not None and n.type in ('defense', 'exist', 'notExist'):
                     call(self.apriori.evaluate_viability_and_necessity, n)
             self.count('probe:sources_pre_evaluated')
+        if op.get('compromised') and op['mat'] != 'model':
+            from maltoolbox.attackgraph import Attacker
+            by_key = {key(n): n for n in g.nodes}
+            att = Attacker(name='early', entry_points=[], reached_attack_steps=[])
+            ids = [by_key[f'n{i}'].id for i in op['compromised'] if f'n{i}' in by_key]
+            if ids:
+                call(g.add_attacker, att, reached_attack_steps=ids, entry_points=ids[:1])
+                self.count('probe:attacker_present_during_analysis')
         o = call(self.apriori.calculate_viability_and_necessity, g)
         where = f'analysis of materialisation {op["mat"]} order {op.get("perm")}'
         if o.raised:
